@@ -76,6 +76,7 @@ type g struct {
 	usedImgs  map[string]bool
 	n         int    // label counter
 	seed      uint64 // see salt
+	nData     int    // data sets drawn so far
 }
 
 func (x *g) lbl(s string) string { x.n++; return s + strconv.Itoa(x.n) }
@@ -450,8 +451,10 @@ func (x *g) data() Data {
 	for _, im := range imageNames {
 		i++
 		if x.usedImgs[im] { // always supplied: the documents do not say what a missing image renders as
-			d.Images[im] = gen.Img{Fmt: []string{"png", "jpeg", "gif"}[x.intn(0, 2, "imf")], W: 3 + 4*i, H: 2 + 3*i, Pat: x.intn(0, 1000, "imp"), Name: im}
+			// the format is rotated by the number of the data set: the simplest draw gives every data set another format
+			d.Images[im] = gen.Img{Fmt: []string{"png", "jpeg", "gif"}[(x.intn(0, 2, "imf")+x.nData)%3], W: 3 + 4*i, H: 2 + 3*i, Pat: x.intn(0, 1000, "imp"), Name: im}
 		}
 	}
+	x.nData++
 	return d
 }
